@@ -129,7 +129,13 @@ pub fn write_event(
     logger_key: &str,
 ) {
     let event_message = if message.len() > MAX_MESSAGE_LENGTH {
-        message[..MAX_MESSAGE_LENGTH].to_string()
+        // cut at a character boundary: slicing at a fixed byte offset panics
+        // when the offset falls inside a multi-byte character
+        let mut end = MAX_MESSAGE_LENGTH;
+        while !message.is_char_boundary(end) {
+            end -= 1;
+        }
+        message[..end].to_string()
     } else {
         message.to_string()
     };
